@@ -108,6 +108,12 @@ def run(ctx):
     # makes d/dx and d/dy of the same expression independent
     from .c05 import check_cse_mixin
     check_cse_mixin(ctx, model)
+    # the rules write their right-hand sides with the overloaded operators
+    # (f**(g-1), df*g + f*dg, ...): an operator that folds what it is given
+    # into something of another value ((b**m)**n -> b**(m*n)) makes a correct
+    # rule produce a wrong derivative
+    from .c03 import operator_rules
+    operator_rules(ctx, model)
 
 
 def _is_math_log(model, mem, v):
@@ -238,6 +244,38 @@ def _fn_name(v):
     return None
 
 
+def _row_of(ps, PARS):
+    """(function name, number of arguments) a path of the table belongs to,
+    from the facts on the path: func == make_f(name); len(pars) == k, or
+    len(pars) in (...) narrowed by the == tests that failed"""
+    from ..summary import facts_of
+    fname = None
+    eq_true, eq_false, in_sets = set(), set(), []
+    for _, pol, v in ps.conds:
+        if not isinstance(v, tuple):
+            continue
+        for c, p_ in facts_of(v, pol):
+            if not (isinstance(c, tuple) and c and c[0] == "compare"):
+                continue
+            if c[1] == ("Eq",) and c[2] == ("param", "func") and p_:
+                fname = _fn_name(c[3][0])
+            if c[2] == ("len", PARS):
+                if c[1] == ("Eq",) and c[3][0][0] == "const":
+                    (eq_true if p_ else eq_false).add(c[3][0][1])
+                elif c[1] == ("NotEq",) and c[3][0][0] == "const":
+                    (eq_false if p_ else eq_true).add(c[3][0][1])
+                elif c[1] == ("In",) and p_ and c[3][0][0] == "lit":
+                    in_sets.append({x[1] for x in c[3][0][2] if x[0] == "const"})
+    arity = None
+    if len(eq_true) == 1:
+        arity = next(iter(eq_true))
+    elif in_sets:
+        left = set.intersection(*in_sets) - eq_false
+        if len(left) == 1:
+            arity = left.pop()
+    return fname, arity
+
+
 def _table(ctx, model):
     m, fn = model.func(f"{DIFF}:map_math_functions_by_name")
     loc = m.loc(fn)
@@ -258,17 +296,7 @@ def _table(ctx, model):
     for ps in summarize(fn, plain=True):
         # which function does this path belong to?  the last positive
         # "func == make_f(name) and len(pars) == k" condition
-        fname = arity = None
-        for _, pol, v in ps.conds:
-            if pol and isinstance(v, tuple) and v[0] == "boolop" and \
-                    v[1] == "And":
-                for c in v[2]:
-                    if c[0] == "compare" and c[1] == ("Eq",) and \
-                            c[2] == ("param", "func"):
-                        fname = _fn_name(c[3][0])
-                    if c[0] == "compare" and c[1] == ("Eq",) and \
-                            c[2] == ("len", PARS):
-                        arity = c[3][0][1]
+        fname, arity = _row_of(ps, PARS)
         if fname is None:
             if ps.term == "raise":
                 final_raise = True
@@ -327,17 +355,7 @@ def _table(ctx, model):
             got_any = False
             for ps in summarize(fn, plain=True, assume={
                     fn.args.args[0].arg: ("const", k)}):
-                f2 = a2 = None
-                for _, pol, v in ps.conds:
-                    if pol and isinstance(v, tuple) and v[0] == "boolop" and \
-                            v[1] == "And":
-                        for c in v[2]:
-                            if c[0] == "compare" and c[1] == ("Eq",) and \
-                                    c[2] == ("param", "func"):
-                                f2 = _fn_name(c[3][0])
-                            if c[0] == "compare" and c[1] == ("Eq",) and \
-                                    c[2] == ("len", PARS):
-                                a2 = c[3][0][1]
+                f2, a2 = _row_of(ps, PARS)
                 if (f2, a2) != (fname, arity):
                     continue
                 got_any = True
